@@ -208,17 +208,33 @@ class intros_macro(Macro):
         if len(prevs) == 1:
             return apply_theorem('trivial', pt)
 
+        def exists_elim(ex_pt, pt, vars):
+            """ex_pt: ?x_1 ... x_k. B, pt: !x_1 ... x_k. B --> C (k = len(vars) >= 1,
+            the x_i generalized from vars). Return C, one exE for each variable."""
+            if len(vars) <= 1:
+                return apply_theorem('exE', ex_pt, pt)
+            v = vars[0]
+            inner_ex = ex_pt.prop.arg.subst_bound(v)
+            assert inner_ex.is_exists(), "intros_macro"
+            pt2 = exists_elim(ProofTerm.assume(inner_ex), pt.forall_elim(v), vars[1:])
+            return apply_theorem('exE', ex_pt, pt2.implies_intr(inner_ex).forall_intr(v))
+
+        # Variables generalized since the last assumption (in order of the proof).
+        vars = []
         for intro in reversed(intros):
             if intro.th.prop.is_VAR():  # variable case
                 pt = pt.forall_intr(intro.prop.arg)
+                vars = [intro.prop.arg] + vars
             elif len(args) > 0 and intro.th.prop == args[0]:  # exists case
                 assert intro.prop.is_exists(), "intros_macro"
-                pt = apply_theorem('exE', intro, pt)
+                pt = exists_elim(intro, pt, vars)
                 args = args[1:]
+                vars = []
             else:  # assume case
                 assert len(intro.th.hyps) == 1 and intro.th.hyps[0] == intro.th.prop, \
                     "intros_macro"
                 pt = pt.implies_intr(intro.prop)
+                vars = []
         return pt
 
 class apply_theorem_macro(Macro):
